@@ -149,7 +149,10 @@ type DataPayload struct {
 
 // MarshalBinary marshals the object in binary form.
 func (p DataPayload) MarshalBinary() ([]byte, error) {
-	return p.Bytes, nil
+	// a copy: the caller may overwrite the returned slice
+	out := make([]byte, len(p.Bytes))
+	copy(out, p.Bytes)
+	return out, nil
 }
 
 // UnmarshalBinary decodes the object from binary form.
